@@ -105,7 +105,7 @@ static rtosc_print_options popts(const Opts &o) { rtosc_print_options p; p.lossl
 // count + scan a text (argument values or a whole message); logs count, consumed, expansion; returns cells
 static void scan_text(JW &w, const char *text, size_t tlen, bool msg, std::vector<rtosc_arg_val_t> &cells, std::vector<char> &strbuf, const char *key_prefix) {
     std::string kp = key_prefix;
-    size_t lead = 0; if (!msg) while (lead < tlen && isspace((unsigned char)text[lead])) ++lead;
+    size_t lead = 0; (void)tlen;      // the text goes to checker and scanner as it is: blanks and comments in front of the first value are theirs to skip
     int cnt = msg ? rtosc_count_printed_arg_vals_of_msg(text) : rtosc_count_printed_arg_vals(text + lead);
     w.knum((kp + "count").c_str(), cnt).knum((kp + "lead").c_str(), (long long)lead);
     cells.clear();
